@@ -794,7 +794,67 @@ def miri_ready():
         rc, out = vlib.run(['cargo', '+nightly', 'miri', 'setup'], cwd=MIRI_DIR, timeout=900, env=env)
     return rc == 0, vlib.strip_noise(out)[-1500:]
 
-def make_custom_miri(prefixes):
+def miri_harness_runs(streams, rng):
+    """run the harness itself under miri (no tracking allocator there: only undefined behaviour is looked at)"""
+    import concurrent.futures, re
+    cov = dict(streams=list(streams), cases=0, shards=0, undefined_behaviour=0); problems = []
+    env = miri_env(); env['RUSTFLAGS'] = '--cfg triomphe_verif'; env['CARGO_TARGET_DIR'] = os.path.join(vlib.TARGET, 'miri-harness')
+    env['MIRIFLAGS'] = '-Zmiri-disable-isolation -Zmiri-ignore-leaks'
+    base = ['cargo', '+nightly', 'miri', 'run', '--offline', '--no-default-features', '--features', 'cfg_default', '--']
+    tmpd = os.path.join(vlib.CACHE, 'run', 'miri-harness'); shutil.rmtree(tmpd, ignore_errors=True); os.makedirs(tmpd)
+    jobs = []
+    for st in streams:
+        if st == 'mech':
+            foc = [None, {'thin', 'with'}, {'uninit'}, {'union'}, {'unique'}, {'thin'}, {'raw'}]
+            cases = [('M%d' % i, [[100, 1]] + mechgen.gen_history(rng, rng.randrange(8, 60), focus=foc[i % 7])) for i in range(240)] + \
+                    [(cid, [[100, 1]] + ops) for cid, ops in load_corpus('mech')[:60]]
+        elif st == 'ptr':
+            cases = PTR_STREAM_C10['gen']('quick', rng); rng.shuffle(cases); cases = cases[:240]
+        elif st == 'cmp':
+            cases = EFFECTS_STREAM['gen']('quick', rng) + UNION_CMP_STREAM['gen']('quick', rng); rng.shuffle(cases); cases = cases[:240]
+        else:
+            continue
+        cov['cases'] += len(cases)
+        n = 8
+        for i in range(n):
+            part = cases[i::n]
+            if not part: continue
+            cf = os.path.join(tmpd, '%s%d.txt' % (st, i)); vlib.write_cases(cf, part)
+            jobs.append((st, cf, part))
+    if not jobs: return dict(coverage=cov, problems=problems)
+    with vlib.Lock():
+        empty = os.path.join(tmpd, 'empty.txt'); open(empty, 'w').write('')
+        rc, out = vlib.run(base + ['mech', empty], cwd=vlib.HARNESS, timeout=1500, env=env)
+    if rc != 0:
+        problems.append(('build', 'the harness does not build / start under miri: %s' % vlib.strip_noise(out)[-800:], dict(kind='unproved', stage='miri-harness', output=vlib.strip_noise(out)[-2500:])))
+        return dict(coverage=cov, problems=problems)
+    def one(job):
+        st, cf, part = job
+        rc, out = vlib.run(base + [st, cf], cwd=vlib.HARNESS, timeout=2400, env=env)
+        return job, rc, out
+    with concurrent.futures.ThreadPoolExecutor(max_workers=8) as ex:
+        results = list(ex.map(one, jobs))
+    for (st, cf, part), rc, out in results:
+        cov['shards'] += 1
+        txt = vlib.strip_noise(out)
+        if 'Undefined Behavior' not in txt: continue
+        cov['undefined_behaviour'] += 1
+        lines = txt.split('\n')
+        k = next(i for i, l in enumerate(lines) if 'Undefined Behavior' in l)
+        loc = next((l.strip() for l in lines[k:k + 6] if l.strip().startswith('-->')), '')
+        done = set(re.findall(r'^(\w+)\.\d+\|', txt, re.M))
+        culprit = next((c for c in part if c[0] not in done), part[-1])
+        in_crate = '/repo/src/' in loc
+        if in_crate and len([p for p in problems if p[0] == 'oracle']) < 3:
+            problems.append(('oracle', '%s case %s under miri: %s (%s)' % (st, culprit[0], lines[k].strip()[:300], loc),
+                             dict(kind='impl-counterexample', stream=st, case=culprit[1], miri_report=[l.strip() for l in lines[k:k + 25] if l.strip()][:25], why=lines[k].strip()[:600],
+                                  how_to_rerun='the case through `cargo +nightly miri run` of harness/ (see tools/propdefs.py miri_harness_runs)')))
+        elif not in_crate and not any(p[0] == 'harness-ub' for p in problems):
+            problems.append(('harness-ub', 'undefined behaviour reported inside the harness itself while running %s under miri: %s %s' % (st, lines[k].strip()[:200], loc),
+                             dict(kind='unproved', stage='miri-harness', report=[l.strip() for l in lines[k:k + 15]])))
+    return dict(coverage=cov, problems=problems)
+
+def make_custom_miri(prefixes, harness_streams=()):
     def custom(tier, rng, facts, replay=None):
         import concurrent.futures, re
         cov = dict(available=True, tests=0, passed=0, failed=0, runs=0, modes=[], names=[])
@@ -851,12 +911,18 @@ def make_custom_miri(prefixes):
                 problems.append(('oracle', 'scenario %s under miri (%s): %s' % (n, m, why[:300]),
                                  dict(kind='impl-counterexample', stream='miri', test=n, mode=m, program=tests[n][1], miri_report=errs[:4] + where, panic=panic,
                                       how_to_rerun='cd /verif/miri && %scargo +nightly miri test --offline --test %s -- --exact %s' % (('MIRIFLAGS="%s" ' % fl) if fl else '', tests[n][0], n), why=why[:600])))
+        # thorough tier: the harness's own random histories (mech), pointer cases (ptr) and comparison cases (cmp) run under
+        # miri as well: the same operation mixes the streams use, judged by the abstract machine instead of by observations
+        if tier == 'thorough' and harness_streams and not replay:
+            hres = miri_harness_runs(harness_streams, rng)
+            cov['harness_under_miri'] = hres['coverage']; cov['runs'] += hres['coverage'].get('cases', 0)
+            problems += hres['problems']
         if names: samples.append(dict(stream='miri', test=names[0], program=tests[names[0]][1][:1500]))
         return dict(coverage=cov, evaluations=cov['runs'], nontrivial=nontrivial, problems=problems, samples=samples)
     return custom
 
-def MIRI_STREAM(prefixes):
-    return dict(stream='miri', custom=make_custom_miri(prefixes), custom_replay=True,
+def MIRI_STREAM(prefixes, harness_streams=()):
+    return dict(stream='miri', custom=make_custom_miri(prefixes, harness_streams), custom_replay=True,
                 rule='scenario programs over the public API (miri/tests/*.rs: %s) run under miri against /repo as shipped (no hooks): Stacked Borrows pointer provenance, reads of uninitialised memory, the layout every block is released with, double frees, leaks at exit (except in the scenarios whose documented behaviour leaks), data races between real threads under the orderings the crate uses; thorough tier: also Tree Borrows and 6 schedules of the threaded scenarios. An oracle on the implementation, not a proof; distinct = scenarios that passed' % ', '.join(p + '*' for p in prefixes))
 
 def facts_protocol(facts):
@@ -1752,7 +1818,7 @@ PROPS['C09']['streams'] = PROPS['C09']['streams'] + [DPANIC_STREAM]
 for _pid, _pre in (('C01', ['c01_', 'c04_']), ('C02', ['c02_']), ('C03', ['c03_']), ('C04', ['c04_']), ('C05', ['c05_', 'c06_', 'c01_thin', 'c01_union', 'c09_']),
                    ('C06', ['c06_']), ('C07', ['c07_']), ('C08', ['c08_']), ('C09', ['c09_']), ('C10', ['c10_', 'c01_thin']), ('C11', ['c11_']),
                    ('C12', ['c01_union', 'c14_', 'c04_counts']), ('C14', ['c14_']), ('C15', ['c15_']), ('C17', ['c17_'])):
-    PROPS[_pid]['streams'] = PROPS[_pid]['streams'] + [MIRI_STREAM(_pre)]
+    PROPS[_pid]['streams'] = PROPS[_pid]['streams'] + [MIRI_STREAM(_pre, {'C01': ('mech',), 'C11': ('ptr',), 'C14': ('cmp',)}.get(_pid, ()))]
 # the schedule stream: real threads against the machine of the translated counter programs
 PROPS['C02']['streams'] = PROPS['C02']['streams'] + [SCHED_STREAM('drops')]
 PROPS['C03']['streams'] = PROPS['C03']['streams'] + [SCHED_STREAM('unique')]
